@@ -142,7 +142,8 @@ Definition with_tree (t : tplan) (s : st) : st := {| tree := t; chain := chain s
 Definition with_chain (c : list frame) (s : st) : st := {| tree := tree s; chain := c; err := err s; emitted := emitted s |}.
 Definition with_err (e : option error) (s : st) : st := {| tree := tree s; chain := chain s; err := e; emitted := emitted s |}.
 Definition with_emitted (b : bool) (s : st) : st := {| tree := tree s; chain := chain s; err := err s; emitted := b |}.
-Definition set_err (e : error) (s : st) : st := with_err (Some e) s.          (* b.setErr *)
+(* b.setErr: records the error unless an earlier one is recorded (the first error sticks until Reset) *)
+Definition set_err (e : error) (s : st) : st := match err s with Some _ => s | None => with_err (Some e) s end.
 
 (* known deviations of the code from the property (DESIGN section 4); theorems are for [dev_none] *)
 Record dev := { dev_B2 : bool }.   (* B2: Reset returns a failing option's error without recording it *)
@@ -246,7 +247,7 @@ Definition add_action (i : nat) (a : option aarg) (s : st) : out :=
 
 (* Reset: returns its error; (state, returned error) *)
 Definition reset (d : dev) (i : nat) (a : parg) (s : st) : st * option error :=
-  let s := with_chain [] (with_emitted false s) in                    (* b.emitted = false; b.chain = b.chain[:0] *)
+  let s := with_chain [] (with_err None (with_emitted false s)) in    (* b.emitted = false; b.err = nil; b.chain = b.chain[:0] *)
   if nm_blank (pa_name a) || nm_blank (pa_descr a)
   then (set_err (EMissingName, i) s, Some (EMissingName, i))
   else
@@ -262,14 +263,15 @@ Definition reset (d : dev) (i : nat) (a : parg) (s : st) : st * option error :=
 (* Plan(): (state, returned plan, returned error), or a panic *)
 Inductive pout := PNext (s : st) (p : option tplan) (e : option error) | PBoom.
 Definition emit (i : nat) (s : st) : pout :=
-  if emitted s then PNext s None (Some (EUseAfterEmit, i))            (* does not call setErr *)
-  else match err s with
-       | Some e => PNext s None (Some e)
-       | None => match chain s with
-                 | [] => PBoom                                        (* b.chain[0] *)
-                 | _ => PNext (with_emitted true s) (Some (tree s)) None
-                 end
-       end.
+  match err s with
+  | Some e => PNext s None (Some e)
+  | None =>
+    if emitted s then let s' := set_err (EUseAfterEmit, i) s in PNext s' None (err s')   (* return nil, b.setErr(...) *)
+    else match chain s with
+         | [] => PBoom                                                (* b.chain[0] *)
+         | _ => PNext (with_emitted true s) (Some (tree s)) None
+         end
+  end.
 
 (* ---- results ---- *)
 Inductive rclass := ROk | RErr (e : error) | RPanic.
